@@ -130,7 +130,7 @@ type profile struct {
 
 var profiles = map[string]profile{
 	"C04": {minTargets: 1, maxTargets: 2, modes: []string{"stream"}, gatedPct: 25, maxSteps: 30, maxSubs: 3, preload: 3, starPct: 30, pickPct: 40, bulkPct: 4, bulkNs: []int{5, 33, 40, 70, 130},
-		weights: map[string]int{"w": 14, "start": 5, "release": 5, "relw": 3, "grant": 3, "check": 2, "drain": 2, "sleep": 1},
+		weights: map[string]int{"w": 14, "start": 5, "release": 5, "relw": 3, "grant": 3, "check": 2, "drain": 2, "sleep": 1, "wrace": 2},
 		wkinds:  []string{"noti", "noti", "noti", "noti", "noti", "noti", "noti", "noti", "reset", "sync", "updmeta"},
 		parks:   []string{"", "sub.pre-register", "sub.registered", "sub.walk.begin", "sub.walk.end", "coalesce.next.empty"}},
 	"C05": {minTargets: 1, maxTargets: 3, modes: []string{"once", "poll", "poll"}, gatedPct: 20, maxSteps: 24, maxSubs: 3, preload: 5, starPct: 35, pickPct: 30, bulkPct: 5, bulkNs: []int{5, 33, 70, 130, 257, 300, 520},
@@ -146,12 +146,12 @@ var profiles = map[string]profile{
 		wkinds:  []string{"noti", "noti", "noti", "noti", "noti", "noti", "noti", "noti", "noti", "noti", "noti", "noti", "noti", "noti", "reset"},
 		parks:   []string{""}},
 	"C14": {minTargets: 2, maxTargets: 4, modes: []string{"stream"}, gatedPct: 10, maxSteps: 30, maxSubs: 4, preload: 4, starPct: 35, pickPct: 30, bulkPct: 4, bulkNs: []int{5, 40, 70},
-		weights: map[string]int{"w": 14, "start": 6, "release": 2, "relw": 2, "check": 2, "drain": 3, "rmadd": 2},
+		weights: map[string]int{"w": 14, "start": 6, "release": 2, "relw": 2, "check": 2, "drain": 3, "rmadd": 2, "wrace": 3},
 		wkinds:  []string{"noti", "noti", "noti", "noti", "noti", "reset", "remove", "remove", "add", "add"},
 		parks:   []string{"", "", "sub.registered"}},
 }
 
-var stepOrder = []string{"w", "start", "release", "relw", "grant", "poll", "eof", "cancel", "sleep", "check", "drain", "rmadd"}
+var stepOrder = []string{"w", "start", "release", "relw", "grant", "poll", "eof", "cancel", "sleep", "check", "drain", "rmadd", "wrace"}
 
 // richNames switches the element alphabet of the scenario being generated to
 // names of which one is a string prefix of another and one contains the "/"
@@ -356,6 +356,20 @@ func genStep(pr profile, targets, nsubs int) func(t *rapid.T) Step {
 			s.W.Kind, s.W.Atomic = "noti", false
 			if len(s.W.Updates) == 0 {
 				s.W.Updates = []Upd{{Path: genElems(t, 1, 2, false), Val: genVal(t)}}
+			}
+		case "wrace":
+			s.Sub = rapid.IntRange(0, nsubs-1).Draw(t, "sub")
+			s.W = wop.Draw(t, "w")
+			switch rapid.IntRange(0, 2).Draw(t, "wrace-kind") {
+			case 0:
+				s.W = &WOp{Kind: "remove", T: s.W.T}
+			case 1:
+				s.W = &WOp{Kind: "reset", T: s.W.T}
+			default:
+				s.W.Kind, s.W.Atomic, s.W.Updates, s.W.Bulk = "noti", false, nil, nil
+				if len(s.W.Deletes) == 0 {
+					s.W.Deletes = [][]gn.Elem{genElems(t, 1, 2, true)}
+				}
 			}
 		case "relw":
 			s.N = rapid.IntRange(0, 2).Draw(t, "which")
